@@ -54,7 +54,7 @@ Qed.
 
 Lemma drop_cr_rev_In rcur c : In c (drop_cr_rev rcur) -> In c rcur.
 Proof.
-  unfold drop_cr_rev. destruct rcur as [|x r]; [intros []|].
+  rewrite !drop_cr_rev_spec. destruct rcur as [|x r]; [intros []|].
   destruct (N.eqb_spec x 13) as [->|Hx].
   - intros H. right. apply in_rev. exact H.
   - assert (E : match x with 13 => rev r | _ => rev (x :: r) end = rev (x :: r)).
